@@ -4,10 +4,16 @@ use crate::engine::{Ctx, Finding};
 use serde_json::Value;
 
 pub mod c08;
+pub mod c17;
+pub mod c18;
+pub mod c19;
 
 pub fn run(ctx: &Ctx) -> bool {
     match ctx.prop.as_str() {
         "C08" => c08::run(ctx),
+        "C17" => c17::run(ctx),
+        "C18" => c18::run(ctx),
+        "C19" => c19::run(ctx),
         _ => return false,
     }
     true
@@ -16,6 +22,9 @@ pub fn run(ctx: &Ctx) -> bool {
 pub fn replay(prop: &str, case: &Value) -> Option<Vec<Finding>> {
     Some(match prop {
         "C08" => c08::replay(case),
+        "C17" => c17::replay(case),
+        "C18" => c18::replay(case),
+        "C19" => c19::replay(case),
         _ => return None,
     })
 }
